@@ -32,6 +32,7 @@ import TlxVerif.Proofs.C04Step
 import TlxVerif.Proofs.C04Classify
 import TlxVerif.Proofs.C04Tree
 import TlxVerif.Proofs.C04Index
+import TlxVerif.Proofs.C04Slcp
 import TlxVerif.Model.C04Sort
 namespace TlxVerif.C04
 
@@ -502,22 +503,27 @@ theorem builder_writes_search_tree {tb : Nat} {samples : Array Key} {c : Classif
   build_isBST htb hsz hsorted h
 
 /-- **Classification with the real builder is monotone** (what the step lemma needs about the
-buckets): explicit splitter array — every tree depth; index calculation `pre_to_levelorder` (the
-default classifier) — tree depths 1..10, the index identity being checked by evaluation per depth. -/
+buckets), for the explicit splitter array and for the index calculation `pre_to_levelorder` of the
+default classifier alike, at every tree depth the classes support. -/
 theorem classification_monotone_build {tb : Nat} {samples : Array Key} {c : Classifier} {useCalc : Bool}
-    (htb : 1 ≤ tb) (hsz : 1 ≤ samples.size)
+    (htb : 1 ≤ tb) (htb' : tb ≤ 31) (hsz : 1 ≤ samples.size)
     (hsorted : ∀ (i j : Nat) (x y : Key), i ≤ j → samples[i]? = some x → samples[j]? = some y → x ≤ y)
-    (hb : build tb samples = some c) (hcalc : useCalc = true → tb ≤ 10)
+    (hb : build tb samples = some c)
     {k k' : Key} {b b' : Nat} (h : c.findBkt useCalc k = some b) (h' : c.findBkt useCalc k' = some b')
     (hlt : b < b') : k < k' :=
-  build_findBkt_lt htb hsz hsorted hb hcalc h h' hlt
+  build_findBkt_lt htb htb' hsz hsorted hb h h' hlt
 
-/-- `pre_to_levelorder(i+1)` is the level-order index of the `i`-th in-order splitter, for every
-tree depth the classifier supports (`switch (treebits)` has cases 1..15) -/
-def index_ok_statement : Prop := ∀ tb, 1 ≤ tb → tb ≤ 15 → IndexOk tb
--- OPEN: index_ok_statement — proved by evaluation for depths 1..10 (`index_ok_partial`); depths 11..15 and a
---   general bit-level proof are missing.  Also open: `splitter_lcp[i]` = LCP of neighbouring splitters.
-theorem index_ok_partial (tb : Nat) (h1 : 1 ≤ tb) (h2 : tb ≤ 10) : IndexOk tb := indexOk_upto_10 tb h1 h2
+/-- **`pre_to_levelorder(i+1)` is the level-order index of the `i`-th in-order splitter**, for every
+tree depth (`switch (treebits)` has cases 1..15; proved up to 31 = width of the `uint32_t` index):
+the `r`-th node in order, `r = 2^t·odd`, sits `t` levels above the leaves at position `r / 2^(t+1)`. -/
+theorem index_ok (tb : Nat) (h : tb ≤ 31) : IndexOk tb := indexOk tb h
+
+/-- **`splitter_lcp`**: entry `i` is `clz(splitter[i-1] ^ splitter[i]) / 8` (+ `0x80` iff `splitter[i]`
+ends inside its key) for the in-order neighbours, entry 0 keeps only the flag, the last entry is 0. -/
+theorem splitter_lcp_entries {tb : Nat} {samples : Array Key} {c : Classifier} (h : build tb samples = some c) :
+    c.slcp = (match slcpEntries 0 c.splitters with
+      | [] => []
+      | x :: xs => (if x ≥ 128 then 128 else 0) :: xs) ++ [0] := build_slcp h
 
 /-- **The base sorter specification is satisfiable**: `baseSort` (the model's stand-in for
 `insertion_sort`, property C03) returns a sorted permutation with exact LCPs. -/
